@@ -3,7 +3,7 @@
 
 Sanity mutants of the real definition / offered reconcilers, applied ONLY through `go build -overlay` on scratch
 copies (nothing is written to /repo): each must make MonXrdLifecycle report the expected formulas under their PLAIN
-names (not under the fingerprints .StaleRecord / .RunningBranch of the findings D16 / D17, which the unchanged tree
+names (not under the fingerprints .StaleRecord / .RunningBranch of the findings D17 / D18, which the unchanged tree
 shows).  Then seeded corruptions of recorded fields of a real trace: the monitor must reject exactly that line.
 Scratch: /verif/.work/X02-selftest."""
 import json
